@@ -74,9 +74,31 @@ impl<const N: usize> error::TexError for OutOfBoundsError<N> {
 
 impl Parsable for char {
     fn parse_impl<S: TexlangState>(input: &mut vm::ExpandedStream<S>) -> txl::Result<Self> {
-        let u1 = Uint::<{ char::MAX as usize }>::parse(input)?;
-        let u2: u32 = u1.0.try_into().unwrap();
-        Ok(char::from_u32(u2).unwrap())
+        let (first_token, i, _) = parse_integer(input)?;
+        let c_or = match u32::try_from(i) {
+            Ok(u) if u < char::MAX as u32 => match char::from_u32(u) {
+                // The surrogate code points are in the range but are not characters.
+                None => {
+                    input.error(
+                        parse::Error::new("a character code", Some(first_token), "")
+                            .with_got_override(format![
+                                "got the integer {i} which is a surrogate code point"
+                            ])
+                            .with_annotation_override("this is where the number started"),
+                    )?;
+                    None
+                }
+                Some(c) => Some(c),
+            },
+            _ => {
+                input.error(OutOfBoundsError::<{ char::MAX as usize }> {
+                    first_token,
+                    got: i,
+                })?;
+                None
+            }
+        };
+        Ok(c_or.unwrap_or('\0'))
     }
 }
 
